@@ -189,7 +189,7 @@ add("C04", "fault_enumeration",
     ["the documented assertion on brokers announcing no subscription-identifier support is exempt (its panic message is recognised and not reported)"], timeout=3400)
 MANIFEST_TEXT["C04"] = {
   "text": "Every enumerated input / fault was delivered to a client in each phase; no panic, no stall with unread input and no call left pending after the transport ended was observed.",
-  "note": "Trusted: mocks, executor (a stall is decided in the closed world of the harness). Aborts (stack overflow, OOM) are caught as worker crashes and attributed to the running case. Infinite loops that never touch the transport would only be seen by the watchdog (inconclusive).",
+  "note": "Trusted: mocks, executor (a stall is decided in the closed world of the harness). Aborts (stack overflow, OOM) are caught as worker crashes and attributed to the running case. A poll of library code that never returns (an endless loop that allocates nothing and never touches the transport) is seen by the worker's CPU-time watchdog: 40 s (quick) / 150 s (thorough) of process CPU time without the heartbeat around polls advancing ends the worker with the case named - a violation when the spin is inside library code, inconclusive when it is in the harness.",
   "technique": RM + "fault enumeration / mutation of valid packets with panic capture and quiescence (wedge) detection; ASan tier for the dependencies' unsafe code"}
 
 add("C12", "exploration",
@@ -337,6 +337,17 @@ for _cid, _m in {
     "C14": {"waiting_when_the_connection_ended_cases": 50},
     "C15": {"dropped_stream_next_to_live_ones_cases": 40},
     "C17": {"connections_ended_by_the_users_disconnect": 2000},
+}.items():
+    EXTRA_MIN.setdefault(_cid, {}).update(_m)
+# round 14
+for _cid, _m in {
+    "C05": {"refused_in_the_midst_cases": 30},
+    "C07": {"size_class_cases": 20, "stream_handovers": 50},
+    "C10": {"walks_with_inbound_traffic": 300, "inbound_pubrels_in_quota_histories": 2000},
+    "C11": {"full_cycles_with_one_operation_outstanding": 2},
+    "C12": {"identical_request_cases": 100},
+    "C14": {"operations_started_after_the_drop_in_long_runs": 150000},
+    "C16": {"stream_handovers": 150},
 }.items():
     EXTRA_MIN.setdefault(_cid, {}).update(_m)
 for _cid, _m in EXTRA_MIN.items():
